@@ -675,7 +675,9 @@ pub fn edit_models(rng: &mut Rng, m: &mut Vec<TableDef>, profile: Profile) -> &'
         9 => {
             let t = &mut m[ti];
             let ci = rng.below(t.columns.len());
-            t.columns[ci].comment = if rng.chance(1, 3) { None } else { Some(rng.pick(&["c1", "a comment", "new"]).to_string()) };
+            // the empty string is a comment like any other for the planner (Some("") != None): only in the loader profile, the SQL
+            // layers' engines treat '' as "no comment"
+            t.columns[ci].comment = if rng.chance(1, 3) { None } else if profile == Profile::Loader && rng.chance(1, 4) { Some(String::new()) } else { Some(rng.pick(&["c1", "a comment", "new"]).to_string()) };
             "recomment"
         }
         10 | 11 => {
